@@ -391,6 +391,34 @@ def _lut_evict_chain(net):
     return True
 
 
+@inst("lut_same_over_ew")
+def _lut_same_over_ew(net):
+    """TANH, a table-less elementwise ADD back to the input quantisation, TANH with exactly the first table again, a table-less MUL, and the same
+    TANH a third time: on parts without reserved table banks the elementwise operations in between use the banks the table lives in"""
+    x = net.cur
+    t = net.T(x)
+    if t["dtype"] != "int8":
+        return False
+    shp = t["shape"]
+    q0 = (net.scale(x), net.zp(x))
+
+    def tanh():
+        y = net.act(shp, "int8", q=(1 / 128, 0))
+        net.op("TANH", [net.cur], [y], None)
+
+    def ew(op, oname):
+        a = net.cur
+        y = net.act(shp, "int8", q=q0)
+        net.op(op, [a, a], [y], (oname, dict(FusedActivationFunction=0)))
+
+    tanh()
+    ew("ADD", "AddOptions")
+    tanh()
+    ew("MUL", "MulOptions")
+    tanh()
+    return True
+
+
 @inst("conv_then_c1")
 def _conv_then_c1(net):
     """a 16-channel convolution followed by a 1-channel one: on a dual-core part the second operator has a weight stream for core 0 only,
@@ -1141,7 +1169,7 @@ SIGMA_Q = [
     "conv1x1", "conv3x3", "conv3x3s2", "conv3x3v_relu6", "conv3x3d2", "dw3x3", "dw3x3s2", "fc", "maxpool2x2",
     "avgpool2x2", "avgpool3x3same", "add_res", "add_const", "add_scalar", "add_bcast_h", "sub_const", "mul_const",
     "min_const", "relu", "leaky_relu", "logistic", "tanh", "hard_swish", "reshape", "concat", "split", "strided_slice",
-    "pad_hw", "pad_c", "mean", "resize_nn2", "quantize", "tconv_s2", "softmax", "cpu_d2s", "cpu_custom", "conv_dynw", "cpu_neg", "tap", "branch_cpu", "branch_npu", "conv_dynw_nobias", "cpu_custom_opt", "conv3x3_c1", "slice", "conv_again", "conv_pair_shared", "reshape_requant", "fc_fc_sq", "conv_c3_sq", "cpu_conv_s4", "cpu_conv_s4_pair", "logistic_coarse", "c24_reshape_w_relu", "conv_then_c1", "cpu_squeeze0", "late_cpu_reader", "skip_over_cpu", "cpu_sub_nopot", "lut_evict_chain",
+    "pad_hw", "pad_c", "mean", "resize_nn2", "quantize", "tconv_s2", "softmax", "cpu_d2s", "cpu_custom", "conv_dynw", "cpu_neg", "tap", "branch_cpu", "branch_npu", "conv_dynw_nobias", "cpu_custom_opt", "conv3x3_c1", "slice", "conv_again", "conv_pair_shared", "reshape_requant", "fc_fc_sq", "conv_c3_sq", "cpu_conv_s4", "cpu_conv_s4_pair", "logistic_coarse", "c24_reshape_w_relu", "conv_then_c1", "cpu_squeeze0", "late_cpu_reader", "skip_over_cpu", "cpu_sub_nopot", "lut_evict_chain", "lut_same_over_ew",
 ]
 SIGMA_T = SIGMA_Q + [n for n, (_, tags) in INSTANCES.items() if "t" in tags]
 SIGMA_C = [n for n, (_, tags) in INSTANCES.items() if "c" in tags]
